@@ -806,6 +806,41 @@ def _shared_rule(mod, name, **kw):
     return run
 
 
+def r22_keyspace_types(ctx, rule):
+    """omen_keyspace.txt is `level<TAB>keyspace`, both integers, and every consumer indexes the loaded table with an int level
+    (get_status: self.omen_keyspace[level] with level = int(...)): load_omen_keyspace converts BOTH fields with int().  (Seed
+    C12-da kept the level as the string read from the file: the status report inside a Markov level raises KeyError in the
+    keyboard thread, which dies silently - a `q` typed during that level never stops the session.)"""
+    q = GIO + 'load_omen_keyspace'
+    fn = ctx.fn(q)
+    ctx.stats['functions'].add(q)
+    stores = stores_in(fn)
+    rets = [r for r in walk_local(fn) if isinstance(r, ast.Return) and r.value is not None]
+    if not rets or not isinstance(rets[-1].value, ast.Name):
+        ctx.unk(rule, q, 'load_omen_keyspace does not return a named table')
+        return
+    tbl = rets[-1].value.id
+    pairs = []
+    for st in walk_local(fn):
+        if isinstance(st, ast.Assign) and len(st.targets) == 1 and isinstance(st.targets[0], ast.Subscript) and U(st.targets[0].value) == tbl:
+            pairs.append((st.targets[0].slice, st.value, st))
+        if isinstance(st, ast.Assign) and len(st.targets) == 1 and U(st.targets[0]) == tbl and isinstance(st.value, ast.DictComp):
+            pairs.append((st.value.key, st.value.value, st))
+    if not pairs:
+        ctx.unk(rule, q, 'the way the keyspace table is filled is not of a form this rule knows')
+        return
+    ok = True
+    for k, v, st in pairs:
+        for what, e in (('level', k), ('keyspace', v)):
+            x = expand(fn, e, stores, depth=2)
+            if not (isinstance(x, ast.Call) and call_name(x) == 'int' and len(x.args) == 1):
+                ok = False
+                ctx.bad(rule, q, 'the %s is stored as %s' % (what, U(x)[:50]), 'both columns of omen_keyspace.txt are integers and are looked '
+                        'up / multiplied as integers; kept as text, the level is never found (KeyError in the status thread)', None, st, firm=True)
+    if ok:
+        ctx.ok(rule, q, 'level and keyspace are both converted with int() before they are stored')
+
+
 def r18_scorer_encoding_before_omen(ctx, rule):
     """The scorer opens IP.level / CP.level in the ruleset's encoding: PCFGPasswordScorer.create_omen_scorer hands self.encoding to
     OmenScorer, and self.encoding is None until load_grammar has read the ruleset's config - so in password_scorer.main every path
@@ -853,7 +888,15 @@ def rules(tier):
             # C10-ca: a config option means the same to writer and reader
             ('C07.R17', _shared_rule('c10', 'r20_omen_config_keys')),
             # C07-ca: OMEN scorer initialised before the grammar (and the encoding) is loaded
-            ('C07.R18', _shared_rule('c07', 'r18_scorer_encoding_before_omen'))]
+            ('C07.R18', _shared_rule('c07', 'r18_scorer_encoding_before_omen')),
+            # C07-da: value lines written through csv.writer - a value containing a double quote is quoted on disk, every reader still splits on TAB
+            ('C07.R19', _shared_rule('c06', 'r2_all_items_written')),
+            # C07-db: A12 paired with C1 instead of C12 (len_str = replacement[i][1])
+            ('C07.R20', _shared_rule('c03', 'r3_mask_insertion')),
+            # C09-da / C19-da: the error policy of a reader is part of what a ruleset file means
+            ('C07.R21', _shared_rule('plumbing', 'decode_error_policy')),
+            # C12-da: the OMEN level read from omen_keyspace.txt kept as a string
+            ('C07.R22', _shared_rule('c07', 'r22_keyspace_types'))]
 
 
 META = {
